@@ -59,6 +59,8 @@ type ItemResult struct {
 	Samples      []string   `json:"samples,omitempty"`
 	Seq          bool       `json:"seq,omitempty"`
 	WallMs       int64      `json:"wall_ms"`
+	AllStates    int64      `json:"all_states,omitempty"`
+	AllPruned    int64      `json:"all_pruned,omitempty"`
 	Err          string     `json:"err,omitempty"`
 }
 
@@ -245,7 +247,14 @@ func runItem(prop, tier string, idx int, deadline time.Time, maxExecs int) *Item
 		r.WallMs = time.Since(start).Milliseconds()
 		return r
 	}
-	st := explore.Explore(it.Exec, explore.Options{Bound: it.Bound, Strategy: it.Strat, Deadline: deadline, MaxExecs: maxExecs, Cfg: it.Cfg, CurFile: os.Getenv("MC_CUR")})
+	var st *explore.Stats
+	if it.All {
+		ast := explore.ExploreAll(it.Exec, explore.Options{Strategy: it.Strat, Deadline: deadline, MaxExecs: maxExecs, Cfg: it.Cfg}, it.Ticks)
+		st = &ast.Stats
+		r.AllStates, r.AllPruned = int64(ast.StatesSeen), int64(ast.Pruned)
+	} else {
+		st = explore.Explore(it.Exec, explore.Options{Bound: it.Bound, Strategy: it.Strat, Deadline: deadline, MaxExecs: maxExecs, Cfg: it.Cfg, CurFile: os.Getenv("MC_CUR")})
+	}
 	r.Execs, r.Steps, r.Points, r.ChoicePoints = int64(st.Execs), st.Steps, st.Points, st.ChoicePoints
 	r.ByDev = st.ByDev
 	r.Distinct = int64(len(st.Distinct))
